@@ -45,10 +45,12 @@ class C11(Prop):
                   'scale_node f of the document at scale s (every numeric attribute, path datum and polygon point multiplied by f; names, order, classes, text, style untouched); '
                   'C11_cell_is_8_by_16 for the absolute cell size. Proved for all inputs by structural lemmas over the emit stage; the emit stage of the model is compared with the implementation on every run.')
     level_note = 'trusted: Coq kernel, extraction, harness/driver glue, the emit-stage correspondence (sampling); numbers are exact rationals in the model and f32 in the code (compared to 1e-3)'
-    rule = 'each item renders one input at two scales drawn from {0.5,1,3,8,10,20,37.5}; non-trivial when the document has at least one drawing element besides the backdrop'
+    rule = 'each item renders one input at two scales drawn from {0.5,1,3,8,10,20,37.5}, and once more at the second scale from a buffer that was already rendered at the default scale (public CellBuffer API); non-trivial when the document has at least one drawing element besides the backdrop'
     def make(self, gen, text, a, b, extra=''):
         f = lambda t: self.make(gen, t, a, b, extra)
-        return Item(gen, {'a': Run(text, 'scale=%s%s' % (a, extra)), 'b': Run(text, 'scale=%s%s' % (b, extra))}, {'text': text, 'scales': [a, b]}, f)
+        # 'rr': the same buffer rendered at the default scale first and then at scale b (public CellBuffer API): what was scaled once must not stick
+        return Item(gen, {'a': Run(text, 'scale=%s%s' % (a, extra)), 'b': Run(text, 'scale=%s%s' % (b, extra)), 'rr': Run(text, 'scale=%s%s' % (b, extra), 'rerender')},
+                    {'text': text, 'scales': [a, b]}, f)
     def items(self, rng, tier):
         out = []
         for g, t in texts(rng, tier, 400, 6000):
@@ -68,6 +70,8 @@ class C11(Prop):
         s1 = scale_of(it.runs['a'].spec); s2 = scale_of(it.runs['b'].spec)
         out = []
         compare(ra, rb, s1, s2, '', out)
+        if 'rr' in it.runs and it.runs['rr'].impl.get('svg') != it.runs['b'].impl.get('svg'):
+            out.append('a buffer already rendered at the default scale renders differently at scale %s than a fresh conversion does' % s2)
         if 'cell' in it.meta and not out:
             i, j = it.meta['cell']
             ts = [e for e in ra.walk() if e.tag == 'text']
